@@ -151,6 +151,14 @@ func writeManifest(path string, content string) error {
 		return fmt.Errorf("write manifest: %w", err)
 	}
 
+	// A manifest that has its name but not its contents after a power cut
+	// would read as "no metadata".
+	if err := tmp.Sync(); err != nil {
+		tmp.Close()
+		os.Remove(tmp.Name())
+		return fmt.Errorf("sync manifest: %w", err)
+	}
+
 	if err := tmp.Close(); err != nil {
 		os.Remove(tmp.Name())
 		return fmt.Errorf("close manifest: %w", err)
